@@ -42,6 +42,10 @@ struct SchedState {
     log: Vec<String>,
     /// index in `log` of every loop-thread event
     loop_events: Vec<usize>,
+    /// number of scheduled events after which the controller's next action is due
+    ctl_next_at: usize,
+    /// the controller's next action blocks outside the turnstile (stop / close / drop)
+    ctl_will_block: bool,
     drain: bool,
 }
 
@@ -143,11 +147,18 @@ impl Cls {
     }
     fn lib(self, variant: u64) -> LibUsbError {
         match self {
-            Cls::Io => match variant % 4 {
+            Cls::Io => match variant % 11 {
                 0 => LibUsbError::Other,
                 1 => LibUsbError::Pipe,
                 2 => LibUsbError::Overflow,
-                _ => LibUsbError::Io,
+                3 => LibUsbError::Io,
+                4 => LibUsbError::InvalidParam,
+                5 => LibUsbError::Access,
+                6 => LibUsbError::Interrupted,
+                7 => LibUsbError::NoMem,
+                8 => LibUsbError::NotSupported,
+                9 => LibUsbError::BadDescriptor,
+                _ => LibUsbError::Busy,
             },
             Cls::Disc => {
                 if variant % 2 == 0 {
@@ -194,6 +205,24 @@ struct FakeState {
     protocol_errors: Vec<String>,
     /// (transfer id, script index) of every completed data transfer, in order
     completions: Vec<(u64, usize)>,
+    /// loop threads seen so far (one per `start_streaming_loop`), oldest first
+    loop_threads: Vec<std::thread::ThreadId>,
+}
+
+impl FakeState {
+    /// Two streaming loops must never use the endpoint concurrently: once a newer loop thread has
+    /// performed an operation, an older one must not come back.
+    fn note_thread(&mut self) {
+        let t = std::thread::current().id();
+        if self.loop_threads.last() == Some(&t) {
+            return;
+        }
+        if self.loop_threads.contains(&t) {
+            self.protocol_errors.push("endpoint operation by the loop thread of an earlier session after a newer loop started".into());
+        } else {
+            self.loop_threads.push(t);
+        }
+    }
 }
 
 struct FakeUsb {
@@ -231,6 +260,7 @@ impl VerifUsb for FakeUsb {
         let sched = self.sched();
         sched.yield_at(LOOP);
         let mut st = self.st.lock().unwrap();
+        st.note_thread();
         let n = st.submits;
         st.submits += 1;
         if let Some(cls) = st.submit_fail.remove(&n) {
@@ -249,6 +279,7 @@ impl VerifUsb for FakeUsb {
         let sched = self.sched();
         sched.yield_at(LOOP);
         let mut st = self.st.lock().unwrap();
+        st.note_thread();
         let rel = id.wrapping_sub(st.base_id);
         if st.order.front() != Some(&id) {
             st.protocol_errors.push(format!("poll of transfer {rel} which is not the oldest outstanding one"));
@@ -292,6 +323,7 @@ impl VerifUsb for FakeUsb {
         let sched = self.sched();
         sched.yield_at(LOOP);
         let mut st = self.st.lock().unwrap();
+        st.note_thread();
         let rel = id.wrapping_sub(st.base_id);
         match st.xfers.get_mut(&id) {
             Some(x) => x.cancelled = true,
@@ -547,6 +579,46 @@ struct Plan {
     park_us: u64,
     /// the yield hook panics at the n-th `loop_top` (thread death injection; not sent to the model)
     kill_at_top: Option<usize>,
+    /// how the controller ends the session: 0 = stop_streaming_loop, 1 = close, 2 = drop the handle
+    ctl_mode: u8,
+    /// call `start_streaming_loop` once more while the loop is running, after that many events
+    start_again_at: Option<usize>,
+}
+
+/// What survives a session: the scripted endpoint, the device and (unless dropped) the handle.
+struct Ctx {
+    fake: Arc<FakeUsb>,
+    _dev: Device,
+    strm: Option<StreamHandle>,
+}
+
+fn new_ctx() -> Ctx {
+    let fake = Arc::new(FakeUsb {
+        sched: Mutex::new(Sched::new()),
+        st: Mutex::new(FakeState {
+            script: vec![],
+            consumed: 0,
+            base_id: 0,
+            next_id: 0,
+            xfers: HashMap::new(),
+            order: VecDeque::new(),
+            pend_at: HashSet::new(),
+            submit_fail: HashMap::new(),
+            submits: 0,
+            protocol_errors: vec![],
+            completions: vec![],
+            loop_threads: vec![],
+        }),
+    });
+    let dev = Device::verif_new(
+        fake.clone(),
+        ControlIfaceInfo { iface_number: 0, bulk_in_ep: 0x81, bulk_out_ep: 0x01 },
+        None,
+        Some(ReceiveIfaceInfo { iface_number: 2, bulk_in_ep: 0x83 }),
+        device_info(),
+    );
+    let strm = StreamHandle::verif_new(&dev).expect("stream handle").expect("stream iface");
+    Ctx { fake, _dev: dev, strm: Some(strm) }
 }
 
 #[derive(Clone, Debug)]
@@ -577,6 +649,10 @@ struct Outcome {
     loop_poisoned: bool,
     hang: Option<String>,
     params_seen: Option<Params>,
+    /// close/drop: the receive channel lock was free when the call returned (the loop thread is gone)
+    lock_free_after: bool,
+    /// result of the `start_streaming_loop` issued while the loop was running
+    start_again: Option<String>,
 }
 
 fn info_string(p: &Payload) -> String {
@@ -698,32 +774,24 @@ fn device_info() -> DeviceInfo {
 
 const WATCHDOG: Duration = Duration::from_secs(3);
 
-fn run_session(plan: &Plan) -> Outcome {
+fn run_session(plan: &Plan, mut ctx: Ctx) -> (Outcome, Option<Ctx>) {
     let sched = Sched::new();
-    let fake = Arc::new(FakeUsb {
-        sched: Mutex::new(sched.clone()),
-        st: Mutex::new(FakeState {
-            script: plan.script.clone(),
-            consumed: 0,
-            base_id: 0,
-            next_id: 0,
-            xfers: HashMap::new(),
-            order: VecDeque::new(),
-            pend_at: plan.pend_at.iter().copied().collect(),
-            submit_fail: plan.submit_fail.iter().copied().collect(),
-            submits: 0,
-            protocol_errors: vec![],
-            completions: vec![],
-        }),
-    });
-    let dev = Device::verif_new(
-        fake.clone(),
-        ControlIfaceInfo { iface_number: 0, bulk_in_ep: 0x81, bulk_out_ep: 0x01 },
-        None,
-        Some(ReceiveIfaceInfo { iface_number: 2, bulk_in_ep: 0x83 }),
-        device_info(),
-    );
-    let mut strm = StreamHandle::verif_new(&dev).expect("stream handle").expect("stream iface");
+    let fake = ctx.fake.clone();
+    *fake.sched.lock().unwrap() = sched.clone();
+    {
+        let mut st = fake.st.lock().unwrap();
+        st.script = plan.script.clone();
+        st.consumed = 0;
+        st.base_id = st.next_id;
+        st.xfers.clear();
+        st.order.clear();
+        st.pend_at = plan.pend_at.iter().copied().collect();
+        st.submit_fail = plan.submit_fail.iter().copied().collect();
+        st.submits = 0;
+        st.protocol_errors.clear();
+        st.completions.clear();
+    }
+    let mut strm = ctx.strm.take().expect("handle");
     strm.open().expect("open");
     let inner = strm.inner.clone();
     let (sender, receiver) = channel(plan.cap, 5);
@@ -740,6 +808,8 @@ fn run_session(plan: &Plan) -> Outcome {
                 "buffer_obtained" => "Yobt",
                 "before_poll" => "Ypoll",
                 "before_send_payload" => "Ysend",
+                "before_obtain_buffer" => "Yget",
+                "before_send_error" => "Yerr",
                 _ => "Yunknown",
             };
             s2.log(LOOP, ev.into());
@@ -774,18 +844,73 @@ fn run_session(plan: &Plan) -> Outcome {
     };
     let ctl_handle = {
         let s = sched.clone();
+        let mode = plan.ctl_mode;
+        let start_again_at = plan.start_again_at;
+        let stop_at = plan.stop_at;
+        let (cap, params) = (plan.cap, plan.params);
+        let inner2 = inner.clone();
         std::thread::spawn(move || {
+            let mut start_again = None;
+            if let Some(at) = start_again_at {
+                {
+                    let mut st = s.m.lock().unwrap();
+                    st.ctl_next_at = at;
+                    st.ctl_will_block = false;
+                }
+                s.yield_at(CTL);
+                let (snd, _rcv) = channel(cap, 5);
+                let mut c2 = MemCtrl::new(&params);
+                let r = strm.start_streaming_loop(snd, &mut c2);
+                let what = match &r {
+                    Err(StreamError::InStreaming) => "InStreaming".to_string(),
+                    Ok(()) => "Ok".to_string(),
+                    Err(e) => format!("{e:?}"),
+                };
+                s.log(CTL, if what == "InStreaming" { "KS".into() } else { format!("KSunexpected") });
+                start_again = Some(what);
+            }
+            {
+                let mut st = s.m.lock().unwrap();
+                st.ctl_next_at = stop_at;
+                st.ctl_will_block = true;
+            }
             s.yield_at(CTL);
             s.log(CTL, "KC".into());
             s.block_begin(CTL);
             let t0 = Instant::now();
-            let r = strm.stop_streaming_loop();
+            let (strm, ok) = match mode {
+                0 => {
+                    let r = strm.stop_streaming_loop();
+                    (Some(strm), r.is_ok())
+                }
+                1 => {
+                    let r = strm.close();
+                    (Some(strm), r.is_ok())
+                }
+                _ => {
+                    drop(strm);
+                    (None, true)
+                }
+            };
             let dt = t0.elapsed();
+            let lock_free_after = !matches!(inner2.try_lock(), Err(std::sync::TryLockError::WouldBlock));
+            {
+                let mut st = s.m.lock().unwrap();
+                st.ctl_next_at = 0;
+                st.ctl_will_block = false;
+            }
             s.yield_at(CTL);
-            s.log(CTL, if r.is_ok() { "KRok".into() } else { "KRerr".into() });
-            let running_after = strm.is_loop_running();
+            let ev = match (mode, ok) {
+                (0, true) => "KRok",
+                (0, false) => "KRerr",
+                (1, true) => "KLok",
+                (1, false) => "KLerr",
+                _ => "KD",
+            };
+            s.log(CTL, ev.into());
+            let running_after = strm.as_ref().map_or(false, |h| h.is_loop_running());
             s.finish(CTL);
-            (strm, r.is_ok(), dt, running_after)
+            (strm, ok, dt, running_after, lock_free_after, start_again)
         })
     };
 
@@ -844,6 +969,18 @@ fn run_session(plan: &Plan) -> Outcome {
             let (g, _) = sched.cv.wait_timeout(st, Duration::from_micros(wait)).unwrap();
             st = g;
         }
+        // a stop/close/drop that does not return although the loop keeps passing its cancellation check
+        if st.blocked[CTL] {
+            if let Some(kc) = st.log.iter().position(|e| e == "KC") {
+                let since = st.loop_events.iter().filter(|i| **i > kc).count();
+                if since > 40 * (3 * plan.params.t() + 10) {
+                    hang = Some(format!("stop/close/drop did not return although the loop performed {since} operations after the request"));
+                    st.free_run = true;
+                    sched.wake_all();
+                    break 'sched;
+                }
+            }
+        }
         // choose who runs next
         let session_done = st.finished[LOOP] && st.finished[CTL];
         let choice = if session_done {
@@ -855,7 +992,7 @@ fn run_session(plan: &Plan) -> Outcome {
                 None
             }
         } else {
-            let ctl_due = st.waiting[CTL] && (ctl_called || events >= plan.stop_at || events >= max_events || st.finished[LOOP]);
+            let ctl_due = st.waiting[CTL] && (events >= st.ctl_next_at || events >= max_events || st.finished[LOOP]);
             if ctl_due {
                 ctl_called = true;
                 Some(CTL)
@@ -884,7 +1021,7 @@ fn run_session(plan: &Plan) -> Outcome {
                 st.running = Some(r);
                 events += 1;
                 sched.cv_role[r].notify_all();
-                let first_ctl = r == CTL && !st.log.iter().any(|e| e == "KC");
+                let first_ctl = r == CTL && st.ctl_will_block;
                 drop(st);
                 if first_ctl {
                     // `stop_streaming_loop` is entered outside the turnstile: give the controller time to
@@ -930,31 +1067,35 @@ fn run_session(plan: &Plan) -> Outcome {
         // threads may be stuck inside the implementation: do not join
         let st = sched.m.lock().unwrap();
         let f = fake.st.lock().unwrap();
-        return Outcome {
-            log: st.log.clone(),
-            loop_events: st.loop_events.clone(),
-            completions: f.completions.clone(),
-            consumed: f.consumed,
-            rx: RxReport::default(),
-            outstanding: f.xfers.len(),
-            protocol_errors: f.protocol_errors.clone(),
-            stop_ok: None,
-            stop_dur: Duration::ZERO,
-            running_after: false,
-            loop_poisoned,
-            hang,
-            params_seen,
-        };
+        return (
+            Outcome {
+                log: st.log.clone(),
+                loop_events: st.loop_events.clone(),
+                completions: f.completions.clone(),
+                consumed: f.consumed,
+                rx: RxReport::default(),
+                outstanding: f.xfers.len(),
+                protocol_errors: f.protocol_errors.clone(),
+                stop_ok: None,
+                stop_dur: Duration::ZERO,
+                running_after: false,
+                loop_poisoned,
+                hang,
+                params_seen,
+                lock_free_after: false,
+                start_again: None,
+            },
+            None,
+        );
     }
     let rx = rx_handle.join().unwrap_or_default();
-    let (strm, stop_ok, stop_dur, running_after) = ctl_handle.join().expect("controller thread");
+    let (strm, stop_ok, stop_dur, running_after, lock_free_after, start_again) = ctl_handle.join().expect("controller thread");
     cameleon::u3v::verif::set_yield_hook(None);
-    drop(strm);
     let st = sched.m.lock().unwrap();
     let f = fake.st.lock().unwrap();
     let mut log = st.log.clone();
     log.push(format!("F{}", f.xfers.len()));
-    Outcome {
+    let out = Outcome {
         log,
         loop_events: st.loop_events.clone(),
         completions: f.completions.clone(),
@@ -968,7 +1109,14 @@ fn run_session(plan: &Plan) -> Outcome {
         loop_poisoned,
         hang: None,
         params_seen,
-    }
+        lock_free_after,
+        start_again,
+    };
+    drop(f);
+    drop(st);
+    ctx.strm = strm;
+    let keep = ctx.strm.is_some() && !loop_poisoned;
+    (out, if keep { Some(ctx) } else { None })
 }
 
 // ---------------------------------------------------------------------------------------------
@@ -982,6 +1130,7 @@ const LAYOUTS: &[(usize, usize, usize, usize, usize, usize)] = &[
     (56, 44, 10, 3, 4, 2),
     (52, 36, 32, 1, 0, 0),
     (64, 64, 0, 0, 24, 0),
+    (64, 40, 4, 12, 3, 1),
 ];
 
 const FAULTS: &[&str] = &[
@@ -1002,13 +1151,20 @@ struct Spec {
     seed: u64,
     extra_faults: u64,
     kill: Option<usize>,
+    /// 0 = stop, 1 = close, 2 = drop the handle while the loop is running
+    ctl_mode: u8,
+    /// `start_streaming_loop` is called once more while the loop is running
+    start_twice: bool,
+    /// after the session ended with stop or close, a second session runs on the same handle
+    restart: bool,
 }
 
 impl Spec {
     fn to_json(&self) -> Value {
         json!({"layout": self.layout, "cap": self.cap, "nframes": self.nframes, "fault": self.fault, "fframe": self.fframe,
                "fpart": self.fpart, "rx": self.rx, "stop_pm": self.stop_pm, "seed": self.seed.to_string(),
-               "extra_faults": self.extra_faults, "kill": self.kill})
+               "extra_faults": self.extra_faults, "kill": self.kill, "ctl_mode": self.ctl_mode,
+               "start_twice": self.start_twice, "restart": self.restart})
     }
     fn from_json(v: &Value) -> Spec {
         Spec {
@@ -1023,6 +1179,9 @@ impl Spec {
             seed: v["seed"].as_str().unwrap().parse().unwrap(),
             extra_faults: v["extra_faults"].as_u64().unwrap_or(0),
             kill: v["kill"].as_u64().map(|x| x as usize),
+            ctl_mode: v["ctl_mode"].as_u64().unwrap_or(0) as u8,
+            start_twice: v["start_twice"].as_bool().unwrap_or(false),
+            restart: v["restart"].as_bool().unwrap_or(false),
         }
     }
 }
@@ -1224,7 +1383,10 @@ fn gen_plan(spec: &Spec) -> Plan {
         conforming: true,
         park_us: 300,
         kill_at_top: spec.kill,
+        ctl_mode: spec.ctl_mode % 3,
+        start_again_at: None,
     };
+
     if spec.nframes > 0 {
         let fault = spec.fault.clone();
         apply_fault(&mut rng, &params, &mut plan, &fault, spec.fframe % spec.nframes, spec.fpart % t);
@@ -1233,6 +1395,9 @@ fn gen_plan(spec: &Spec) -> Plan {
             let (ff, fp) = (rng.below(spec.nframes as u64) as usize, rng.below(t as u64) as usize);
             apply_fault(&mut rng, &params, &mut plan, k, ff, fp);
         }
+    }
+    if spec.start_twice && spec.kill.is_none() {
+        plan.start_again_at = Some(rng.below(plan.stop_at as u64 + 1) as usize);
     }
     plan
 }
@@ -1329,8 +1494,22 @@ fn oracle(plan: &Plan, out: &Outcome) -> Verdict {
         next_cand = c + 1;
         let items = &produced[c].1;
         let tg: Vec<Option<Tag>> = items.iter().map(|i| plan.tags[*i]).collect();
+        // one frame as the DEVICE sent it: its leader first, its trailer last, only payload packets of the
+        // same frame in between (a device that repeats or omits payload packets of a frame sends other
+        // bytes, but still one frame; the bytes are compared below with what it actually sent)
         let one_frame = items.len() == t
-            && tg.iter().enumerate().all(|(k, x)| x.map_or(false, |x| x.frame == tg[0].unwrap().frame && x.part == k));
+            && tg.iter().enumerate().all(|(k, x)| {
+                x.map_or(false, |x| {
+                    x.frame == tg[0].unwrap().frame
+                        && if k == 0 {
+                            x.part == 0
+                        } else if k == t - 1 {
+                            x.part == x.nparts - 1
+                        } else {
+                            x.part >= 1 && x.part + 1 < x.nparts
+                        }
+                })
+            });
         if !one_frame {
             let frames: BTreeSet<usize> = tg.iter().flatten().map(|x| x.frame).collect();
             v.push((
@@ -1387,40 +1566,50 @@ fn oracle(plan: &Plan, out: &Outcome) -> Verdict {
             }
         }
     }
-    // stop
+    // stop / close / drop
     let kc = out.log.iter().position(|e| e == "KC");
-    let kr = out.log.iter().position(|e| e == "KRok" || e == "KRerr");
+    let kr = out.log.iter().position(|e| matches!(e.as_str(), "KRok" | "KRerr" | "KLok" | "KLerr" | "KD"));
+    let what = ["stop_streaming_loop", "close", "drop"][plan.ctl_mode as usize % 3];
     match (kc, kr, out.stop_ok) {
         (Some(kc), Some(kr), Some(ok)) => {
             if plan.kill_at_top.is_none() && !out.loop_poisoned && !ok {
-                v.push((json!({"kind": "stop-error"}), "stop_streaming_loop returned an error although the loop was alive".into()));
+                v.push((json!({"kind": "stop-error", "call": what}), format!("{what} returned an error although the loop was alive")));
             }
             if out.loop_poisoned && plan.kill_at_top.is_none() {
                 v.push((json!({"kind": "loop-panicked"}), "the streaming loop thread panicked".into()));
             }
             if out.running_after {
-                v.push((json!({"kind": "flag-not-cleared"}), "is_loop_running() is still true after stop returned".into()));
+                v.push((json!({"kind": "flag-not-cleared", "call": what}), format!("is_loop_running() is still true after {what} returned")));
             }
             if out.stop_dur > Duration::from_secs(2) {
-                v.push((json!({"kind": "stop-slow"}), format!("stop took {:?}", out.stop_dur)));
+                v.push((json!({"kind": "stop-slow", "call": what}), format!("{what} took {:?}", out.stop_dur)));
             }
             let loop_after_kc = out.loop_events.iter().filter(|i| **i > kc).count();
-            let bound = 3 * t + 10;
+            let bound = 3 * t + 12;
             if loop_after_kc > bound {
-                v.push((json!({"kind": "stop-unbounded"}), format!("{loop_after_kc} loop events after the stop request (bound {bound})")));
+                v.push((json!({"kind": "stop-unbounded", "call": what}), format!("{loop_after_kc} loop events after the {what} request (bound {bound})")));
             }
             if out.loop_events.iter().any(|i| *i > kr) {
-                v.push((json!({"kind": "loop-after-stop"}), "the loop performed an operation after stop returned".into()));
+                v.push((json!({"kind": "loop-after-stop", "call": what}), format!("the loop performed an operation after {what} returned")));
             }
-            if plan.kill_at_top.is_some() && out.loop_poisoned && ok {
+            if plan.ctl_mode != 0 && !out.lock_free_after {
+                v.push((json!({"kind": "close-returned-while-loop-alive", "call": what}),
+                    format!("{what} returned while the loop thread still held the receive channel")));
+            }
+            if plan.kill_at_top.is_some() && out.loop_poisoned && ok && plan.ctl_mode != 2 {
                 // the loop died before the rendezvous: the property expects an error return
                 let died_before = out.log[..kc].iter().filter(|e| *e == "Ytop").count() >= plan.kill_at_top.unwrap();
                 if died_before {
-                    v.push((json!({"kind": "stop-ok-on-dead-loop"}), "stop returned Ok although the loop thread had already died".into()));
+                    v.push((json!({"kind": "stop-ok-on-dead-loop", "call": what}), format!("{what} returned Ok although the loop thread had already died")));
                 }
             }
         }
-        _ => v.push((json!({"kind": "stop-missing"}), "the stop request did not complete".into())),
+        _ => v.push((json!({"kind": "stop-missing", "call": what}), format!("the {what} request did not complete"))),
+    }
+    if let Some(r) = &out.start_again {
+        if r != "InStreaming" {
+            v.push((json!({"kind": "start-while-running"}), format!("start_streaming_loop on a running handle returned {r} instead of InStreaming")));
+        }
     }
     if out.outstanding != 0 {
         v.push((json!({"kind": "outstanding-transfer"}), format!("{} transfer(s) still outstanding after stop", out.outstanding)));
@@ -1470,20 +1659,52 @@ fn run_spec(rep: &mut Report, tot: &mut Totals, queue: &mut Vec<(String, Spec)>,
     }
     let mut plan = gen_plan(spec);
     let t0 = Instant::now();
-    let mut out = run_session(&plan);
+    let (mut out, mut ctx) = run_session(&plan, new_ctx());
     // The bound on the loop's steps counts from the moment the controller is parked in `send`, which
     // the harness cannot observe: retry with a longer parking delay before reporting it.
     for park in [5_000u64, 50_000] {
         if oracle(&plan, &out).violations.iter().any(|(s, _)| s["kind"] == "stop-unbounded") {
             rep.count("stop-bound-retry(controller not yet parked)");
             plan.park_us = park;
-            out = run_session(&plan);
+            let r = run_session(&plan, new_ctx());
+            out = r.0;
+            ctx = r.1;
         }
     }
     if t0.elapsed() > Duration::from_millis(500) {
         rep.count("slow-session(>0.5s)");
         if std::env::var("C12_DEBUG").is_ok() {
             eprintln!("slow session {:?}: {:?} events={}", t0.elapsed(), spec, out.log.len());
+        }
+    }
+    rep.count(["ctl/stop", "ctl/close", "ctl/drop"][plan.ctl_mode as usize % 3]);
+    if plan.start_again_at.is_some() {
+        rep.count("ctl/start-while-running");
+    }
+    // restart: a second session (other layout, other way of ending it) on the SAME handle
+    if spec.restart && out.hang.is_none() {
+        if let Some(c) = ctx.take() {
+            let mut spec2 = spec.clone();
+            spec2.restart = false;
+            spec2.layout = spec.layout + 1;
+            spec2.ctl_mode = (spec.ctl_mode + 1) % 3;
+            spec2.seed = spec.seed.wrapping_mul(31).wrapping_add(7);
+            spec2.kill = None;
+            let plan2 = gen_plan(&spec2);
+            let (out2, _) = run_session(&plan2, c);
+            let verdict2 = oracle(&plan2, &out2);
+            rep.count("session/second(restart on the same handle)");
+            rep.count(if verdict2.delivered > 0 { "second-session:delivered-some" } else { "second-session:delivered-none" });
+            let hang2 = out2.hang.is_some();
+            for (mut sig, what) in verdict2.violations {
+                sig["session"] = json!(2);
+                rep.violation(sig, &format!("second session on the same handle: {what}"), spec.to_json());
+            }
+            if hang2 {
+                HANGS.fetch_add(1, std::sync::atomic::Ordering::SeqCst);
+            } else {
+                queue.push((model_request(&plan2, &out2), spec.clone()));
+            }
         }
     }
     let verdict = oracle(&plan, &out);
@@ -1632,6 +1853,9 @@ fn main() {
                         seed: args.seed.wrapping_mul(1_000_003).wrapping_add(grid),
                         extra_faults: 0,
                         kill: None,
+                        ctl_mode: (grid % 3) as u8,
+                        start_twice: grid % 5 == 0,
+                        restart: grid % 4 == 0,
                     };
                     run_spec(&mut rep, &mut tot, &mut queue, &spec, "grid");
                 }
@@ -1655,6 +1879,9 @@ fn main() {
             seed: rng.next_u64(),
             extra_faults: 0,
             kill: None,
+            ctl_mode: rng.below(3) as u8,
+            start_twice: rng.chance(1, 4),
+            restart: rng.chance(1, 3),
         };
         run_spec(&mut rep, &mut tot, &mut queue, &spec, "clean");
         if i % 100 == 99 {
@@ -1677,6 +1904,9 @@ fn main() {
             seed: rng.next_u64(),
             extra_faults: rng.below(4),
             kill: None,
+            ctl_mode: rng.below(3) as u8,
+            start_twice: rng.chance(1, 4),
+            restart: rng.chance(1, 3),
         };
         run_spec(&mut rep, &mut tot, &mut queue, &spec, "random");
         if i % 200 == 199 {
@@ -1698,6 +1928,9 @@ fn main() {
             seed: rng.next_u64(),
             extra_faults: 0,
             kill: Some(1 + rng.below(4) as usize),
+            ctl_mode: rng.below(3) as u8,
+            start_twice: false,
+            restart: false,
         };
         run_spec(&mut rep, &mut tot, &mut queue, &spec, "thread-death");
     }
